@@ -171,6 +171,30 @@ def main():
     failing = rep.get("failing", [])
     for m in rep.get("corr_mismatch", []):
         broken.append(f"correspondence: {m}")
+    # 5a. regression corpus: the failing inputs this check reported for the independently seeded changes (seeded/<id>*/meta.json)
+    #     are replayed on every run, so that a recurrence of one of those defects does not depend on the generators' luck
+    #     (VERIF_NO_SEED_CORPUS=1 switches this off: tools/seedtest.py measures the generators without it)
+    ncorpus = 0
+    if os.environ.get("VERIF_NO_SEED_CORPUS") != "1":
+        import glob
+        for mp in sorted(glob.glob(os.path.join(vlib.ROOT, "seeded", cid + "-*", "meta.json"))):
+            try:
+                ri = json.load(open(mp)).get("check", {}).get("replay_input")
+            except Exception:
+                ri = None
+            if not ri:
+                continue
+            ncorpus += 1
+            try:
+                r = plugin.replay(ctx, {"input": ri, "sig": [cid, "regression-corpus"]})
+            except Exception as e:
+                r = {"what": f"replay raised {type(e).__name__}: {e}", "sig": [cid, "regression-corpus", "raise"], "input": ri}
+            if r:
+                r = dict(r)
+                r["what"] = f"[regression corpus {os.path.basename(os.path.dirname(mp))}] {r.get('what')}"
+                r.setdefault("input", ri)
+                failing.append(r)
+    rep.setdefault("stats", {})["regression_corpus_inputs_replayed"] = ncorpus
     # 5b. escalation: the correspondence broke during a quick run and the quick search found nothing -> search again with the
     #     thorough budget (a broken obligation without a failing input is still reported, but a concrete input is worth minutes)
     escalated = False
